@@ -123,6 +123,7 @@ struct World
 static World * W = NULL;
 
 static bool do_cop(const COp & o, bool inCallback);
+static void check_links();                // pointer structure of the intrusive lists, evaluated also in the middle of a sweep
 static void check_inv(bool quiescent);   // developer aid (env PULSE_INVCHECK): the invariants the Coq proofs rest on, evaluated on the real objects
 
 class HNode : public PulseNode
@@ -143,14 +144,14 @@ public:
       if (prev != w.sReq[_id]) w.fail("GetPulseTime received a previous value that is not what the node returned last");
       if ((w.topRoot >= 0)&&(now != w.topNow)) w.fail("GetPulseTime received a wrong callback time");
       w.sStale[_id] = false; w.sTaint[_id] = false;
-      check_inv(false);
+      check_links(); check_inv(false);
       uint64 ret;
       const int savedCb = w.cbNode; w.cbNode = _id; w.inGetCallback = true;
       if (k < (int) w.gtab[_id].size())
       {
          const GEnt & g = w.gtab[_id][k];
          ret = eval_tspec(g.t, now, prev);
-         for (size_t i=0; i<g.prog.size(); i++) {w.cbOps++; (void) do_cop(g.prog[i], true); check_inv(false);}
+         for (size_t i=0; i<g.prog.size(); i++) {w.cbOps++; (void) do_cop(g.prog[i], true); check_links(); check_inv(false);}
       }
       else ret = eval_tspec(w.dflt[_id], now, prev);
       w.cbNode = savedCb; w.inGetCallback = false;
@@ -178,12 +179,12 @@ public:
       }
       w.pulsed.insert(_id);
       w.sStale[_id] = true;    // it has fired: it must be asked again
-      check_inv(false);
+      check_links(); check_inv(false);
       const int savedCb = w.cbNode; w.cbNode = _id;
       if (k < (int) w.ptab[_id].size())
       {
          const Prog & p = w.ptab[_id][k];
-         for (size_t i=0; i<p.size(); i++) {w.cbOps++; (void) do_cop(p[i], true); check_inv(false);}
+         for (size_t i=0; i<p.size(); i++) {w.cbOps++; (void) do_cop(p[i], true); check_links(); check_inv(false);}
       }
       w.cbNode = savedCb;
    }
@@ -267,6 +268,43 @@ static bool do_cop(const COp & o, bool inCallback)
          fprintf(stderr, "bad cop [%c]\n", o.c); exit(2);
    }
    return false;
+}
+
+static void check_links()
+{
+   World & w = *W;
+   std::set<const PulseNode *> live;
+   for (int i=0; i<MAXID; i++) if (N(i)) live.insert(N(i));
+   for (int i=0; i<MAXID; i++)
+   {
+      HNode * x = N(i); if (!x) continue;
+      for (int L=0; L<3; L++)
+      {
+         const PulseNode * prev = NULL; int steps = 0;
+         for (const PulseNode * p = x->_firstChild[L]; p; p = p->_nextSibling)
+         {
+            if (!live.count(p)) {w.fail("mid-sweep: a child list refers to an object that no longer exists"); break;}
+            if (++steps > MAXID+1) {w.fail("mid-sweep: a child list is cyclic"); break;}
+            if (p->_prevSibling != prev) w.fail("mid-sweep: _prevSibling does not mirror _nextSibling");
+            if (p->_parent != x) w.fail("mid-sweep: a list member's _parent is not the list owner");
+            if (p->_curList != L) w.fail("mid-sweep: a list member's _curList names another list");
+            if ((L == PulseNode::LINKED_LIST_SCHEDULED)&&(prev)&&(prev->_aggregatePulseTime > p->_aggregatePulseTime)) w.fail("mid-sweep: the scheduled list is not sorted");
+            prev = p;
+         }
+         if (x->_lastChild[L] != prev) w.fail("mid-sweep: _lastChild is not the last list member");
+      }
+      if (x->_parent)
+      {
+         if (!live.count(x->_parent)) w.fail("mid-sweep: _parent refers to an object that no longer exists");
+         else
+         {
+            bool found = false;
+            if ((x->_curList >= 0)&&(x->_curList < 3)) for (const PulseNode * p = x->_parent->_firstChild[x->_curList]; p; p = p->_nextSibling) if (p == x) {found = true; break;}
+            if (!found) w.fail("mid-sweep: an attached node is not on the list of its parent that _curList names");
+         }
+      }
+      else if ((x->_curList != -1)||(x->_prevSibling)||(x->_nextSibling)) w.fail("mid-sweep: a detached node still has list linkage");
+   }
 }
 
 static bool g_invcheck = false, g_pureGet = true;
@@ -361,7 +399,7 @@ static void top_pulse(Mgr & mgr, int r, uint64 now, bool fresh)
    const std::set<int> pulsed = w.pulsed;
    end_sweep();
    // oracle: exactly the due nodes fire (when the tree was freshly recalculated and no callback restructured it)
-   if ((fresh)&&(ops == 0)&&(pulsed != due))
+   if ((fresh)&&(ops == 0)&&(now != NEVER)&&(pulsed != due))   // at now == MUSCLE_TIME_NEVER never-requests are "<= now" yet must not fire: only corresponded (C20_pulse_exact_gen)
    {
       bool tainted = false;
       for (std::set<int>::const_iterator it = due.begin(); it != due.end(); ++it) if ((!pulsed.count(*it))&&(w.sTaint[*it])) tainted = true;
